@@ -20,6 +20,8 @@ type readerState struct {
 // scannerState follows bufio.Scanner (Go 1.23 scan.go) at buffer level, so that
 // the token limit, the buffer growth / shifting and the aliasing of Bytes() with
 // the internal buffer behave as in the real implementation.
+type bufReaderState struct{ r *readerState }
+
 type scannerState struct {
 	r       *readerState
 	maxTok  int
@@ -59,6 +61,51 @@ func init() {
 	models["bufio.NewScanner"] = func(p *Path, fn *ssa.Function, a []Value) Value {
 		p.modelsHit["bufio.Scanner (ScanLines, token limit 64 KiB unless Buffer() is called)"] = true
 		return &Native{V: &scannerState{r: readerOf(a[0]), maxTok: bufio.MaxScanTokenSize}}
+	}
+	// bufio.Reader over a harness reader: ReadString / ReadBytes / ReadByte / ReadRune-free subset
+	models["bufio.NewReader"] = func(p *Path, fn *ssa.Function, a []Value) Value {
+		p.modelsHit["bufio.Reader (ReadString/ReadBytes/ReadLine over an in-memory reader)"] = true
+		return &Native{V: &bufReaderState{r: readerOf(a[0])}}
+	}
+	models["bufio.NewReaderSize"] = func(p *Path, fn *ssa.Function, a []Value) Value {
+		return &Native{V: &bufReaderState{r: readerOf(a[0])}}
+	}
+	bufReader := func(v Value) *bufReaderState { return v.(*Native).V.(*bufReaderState) }
+	readUntil := func(p *Path, br *bufReaderState, delim Value) ([]Value, Value) {
+		r := br.r
+		if r.pos >= len(r.data) {
+			return nil, Iface{T: nativeErrorType, V: ioEOF}
+		}
+		for i := r.pos; i < len(r.data); i++ {
+			if p.decideVal(p.equals(types.Typ[types.Uint8], r.data[i], delim)) {
+				out := append([]Value(nil), r.data[r.pos:i+1]...)
+				r.pos = i + 1
+				return out, Iface{}
+			}
+		}
+		out := append([]Value(nil), r.data[r.pos:]...)
+		r.pos = len(r.data)
+		return out, Iface{T: nativeErrorType, V: ioEOF}
+	}
+	models["(*bufio.Reader).ReadString"] = func(p *Path, fn *ssa.Function, a []Value) Value {
+		out, err := readUntil(p, bufReader(a[0]), a[1])
+		return Tuple{mkStr(out), err}
+	}
+	models["(*bufio.Reader).ReadBytes"] = func(p *Path, fn *ssa.Function, a []Value) Value {
+		out, err := readUntil(p, bufReader(a[0]), a[1])
+		if out == nil {
+			return Tuple{Slice{}, err}
+		}
+		return Tuple{Slice{A: out}, err}
+	}
+	models["(*bufio.Reader).ReadByte"] = func(p *Path, fn *ssa.Function, a []Value) Value {
+		r := bufReader(a[0]).r
+		if r.pos >= len(r.data) {
+			return Tuple{int64(0), Iface{T: nativeErrorType, V: ioEOF}}
+		}
+		b := r.data[r.pos]
+		r.pos++
+		return Tuple{b, Iface{}}
 	}
 	scanner := func(v Value) *scannerState { return v.(*Native).V.(*scannerState) }
 	models["(*bufio.Scanner).Buffer"] = func(p *Path, fn *ssa.Function, a []Value) Value {
